@@ -12,7 +12,7 @@ SPEC = {
          "eval": "check_case", "per_shard": 250},
     ],
     "classes": {1: "dup-id-replaces", 2: "subscribe-before-ack-1011", 3: "bad-frame-1002"},
-    "n_quick": 4500, "n_thorough": 45000,
+    "n_quick": 4500, "n_thorough": 18000,
     "level": "proof",
     "what_violation": "websocket session deviates from the protocol / from the verified state machine",
     "rule": ("scripts of client frames (init, start/subscribe with ids a,b,c incl. duplicates, stop/complete, ping, pong, "
